@@ -1,4 +1,20 @@
 ------------------------------------------- MODULE Blueprint_mc -------------------------------------------
+(* C18 -- bounds and emission for Blueprint.tla.
+   Families and what their edits vary (every family starts from base documents defined in Blueprint.tla):
+     links  one block fuel/clad/liner/coolant/duct: dimension and mult links (any pin to any pin, chains, forward
+            references), alternative numbers (including ones that overlap or overfill the block), dropped / reordered /
+            renamed components, a square pin, other temperatures
+     comp   custom isotopics in the three input formats on a Custom material, isotopics on a library material, UZr
+            modifications by block and by component with blank entries, a short list, duplicate isotopics
+     stack  two assembly designs over three block designs: block order, heights, mesh points, xs types swapped, lists
+            shortened / lengthened, specifiers and names changed (unknown / duplicate), heights off the reference mesh
+     pins   a pin lattice (corners-up or flats-up hex, text map or explicit list): ids placed on the seven inner cells,
+            latticeIDs, explicit mult (conflicts), unknown grid name
+     core   two assembly designs on core grids: hex full, hex third, hex corners-up full, Cartesian full and quarter
+            (each as explicit list and as text map), theta-R-Z (explicit list); cells placed / removed, unknown
+            specifier, cells outside a third core, a cell listed twice, two grids of one name
+   MaxLevel <- one of the depth tables below (cfg).  The emission configurations carry every invariant: in the quick
+   tier they are the exhaustive run.                                                                              *)
 EXTENDS Blueprint
 Bound == Modelled(doc)
 \* edit depth per family (cfg: MaxLevel <- ...)
